@@ -200,10 +200,49 @@ func matchIdiom(c *Check, j *CtxJudge, r *Resolver, s BSite, cone *Cone) (bool, 
 			return idiomAwaitedOpen(j, r, s, cone)
 		case strings.HasPrefix(name, "(*bufio.Reader)."):
 			return idiomClosedOnCancel(j, r, s, p)
+		case retryExternal(sc) != "":
+			return idiomBoundedRetry(j, r, ci)
 		}
 		return false, "blocking call " + name + " has no accepted cancellation idiom"
 	}
 	return false, "unrecognised blocking construct"
+}
+
+// idiom (i): a library retry loop whose back-off policy is tied to the
+// worker's context (backoff.WithContext) or to a constant attempt limit
+// (backoff.WithMaxRetries).
+func idiomBoundedRetry(j *CtxJudge, r *Resolver, ci ssa.CallInstruction) (bool, string) {
+	for _, a := range ci.Common().Args {
+		o := r.Of(a)
+		if o.K != "call" {
+			continue
+		}
+		cl, ok := o.V.(*ssa.Call)
+		if !ok {
+			continue
+		}
+		sc := staticCallee(cl.Common())
+		if sc == nil || FuncPkgPath(sc) != "github.com/cenkalti/backoff/v4" {
+			continue
+		}
+		switch sc.Name() {
+		case "WithContext":
+			if len(cl.Call.Args) == 2 {
+				if ok, why := j.OK(r, cl.Call.Args[1]); ok {
+					return true, "idiom (i): retry policy bound to the worker context (" + why + ")"
+				} else {
+					return false, "retry policy bound to a context that is not the worker's: " + why
+				}
+			}
+		case "WithMaxRetries":
+			if len(cl.Call.Args) == 2 {
+				if _, isK := cl.Call.Args[1].(*ssa.Const); isK {
+					return true, "idiom (i): retry policy with a constant attempt limit"
+				}
+			}
+		}
+	}
+	return false, "retry loop whose back-off policy is tied neither to the worker's context nor to an attempt limit: while the retried operation keeps failing the worker does not observe cancellation"
 }
 
 // idiom (a)
